@@ -626,6 +626,31 @@ long syscall(long number, ...) {
     va_start(ap, number);
     for (int i = 0; i < 6; i++) a[i] = va_arg(ap, long);
     va_end(ap);
+    /* system calls made through libc's syscall() instead of the named wrappers: same seams */
+    if (number == SYS_getrandom) {
+        init();
+        if (g_have_entropy) {
+            g_cnt[0]++;
+            if (g_in_expansion) g_cnt[1]++;
+            g_cnt[2] += (uint64_t)a[1];
+            fill((void *)a[0], (size_t)a[1]);
+            return a[1];
+        }
+    }
+    if (number == SYS_getpid && g_have_pid) {
+        g_cnt[7]++;
+        if (g_in_expansion) g_cnt[8]++;
+        return g_pid;
+    }
+    if (number == SYS_gettid && g_have_pid) {
+        /* (the main thread's id is the pid; other threads follow it) */
+        static __thread long t_tid __attribute__((tls_model("initial-exec")));
+        static long next_tid;
+        if (!t_tid) t_tid = g_pid + __sync_fetch_and_add(&next_tid, 1);
+        if (g_in_expansion) g_cnt[8]++;
+        return t_tid;
+    }
+    if (number == SYS_clock_gettime && g_have_clock) return clock_gettime((clockid_t)a[0], (struct timespec *)a[1]);
     if (number == SYS_futex && t_sched && !t_in_sched) {
         int op = (int)a[1] & 127; /* without FUTEX_PRIVATE_FLAG / FUTEX_CLOCK_REALTIME */
         if (op == 0 /* FUTEX_WAIT */ || op == 9 /* FUTEX_WAIT_BITSET */) {
@@ -651,6 +676,67 @@ long syscall(long number, ...) {
         return -1;
     }
     return r;
+}
+
+/* ---- more of what a process is given without asking twice ------------------------------ */
+#include <sys/auxv.h>
+#include <sys/times.h>
+
+/* AT_RANDOM: sixteen bytes the kernel hands every process; a hash seeded from them would
+ * bypass getrandom */
+unsigned long getauxval(unsigned long type) {
+    init();
+    if (type == AT_RANDOM && g_have_entropy) {
+        static unsigned char r[16];
+        static int done;
+        if (!done) { fill(r, 16); done = 1; }
+        g_cnt[0]++;
+        if (g_in_expansion) g_cnt[1]++;
+        return (unsigned long)r;
+    }
+    unsigned long (*real)(unsigned long) = REAL("getauxval");
+    return real ? real(type) : 0;
+}
+
+/* which CPU the thread happens to run on: follows the cpu-count seam */
+int sched_getcpu(void) {
+    init();
+    if (g_have_ncpu) return (int)((g_have_pid ? g_pid : 0) % g_ncpu);
+    int (*real)(void) = REAL("sched_getcpu");
+    return real ? real() : 0;
+}
+
+/* processor time: follows the simulated clock */
+clock_t clock(void) {
+    init();
+    if (g_have_clock) return (clock_t)((sim_now_ns() - g_clock_epoch_ns) / 1000);
+    clock_t (*real)(void) = REAL("clock");
+    return real ? real() : (clock_t)-1;
+}
+
+clock_t times(struct tms *b) {
+    init();
+    if (g_have_clock) {
+        clock_t t = (clock_t)((sim_now_ns() - g_clock_epoch_ns) / 10000000);
+        if (b) { b->tms_utime = t; b->tms_stime = 0; b->tms_cutime = 0; b->tms_cstime = 0; }
+        return t;
+    }
+    clock_t (*real)(struct tms *) = REAL("times");
+    return real ? real(b) : (clock_t)-1;
+}
+
+int getrusage(int who, struct rusage *ru) {
+    init();
+    int (*real)(int, struct rusage *) = REAL("getrusage");
+    int rc = real ? real(who, ru) : -1;
+    if (rc == 0 && g_have_clock && ru) {
+        int64_t ns = sim_now_ns() - g_clock_epoch_ns;
+        memset(ru, 0, sizeof *ru);
+        ru->ru_utime.tv_sec = ns / 1000000000;
+        ru->ru_utime.tv_usec = (ns / 1000) % 1000000;
+        ru->ru_maxrss = 4096 * (1 + (g_have_ncpu ? g_ncpu : 1));
+    }
+    return rc;
 }
 
 #endif /* SIM_MINIMAL */
